@@ -533,7 +533,7 @@ def score_request(scn, pairs):
         # the comparison of the real outputs reports it
         blank = {"a": None, "b": None, "c": None}
         x, y = rec.get(tup(l), blank), rec.get(tup(r), blank)
-        guards = [[c02.guard(lv, x[c["col"]], y[c["col"]]) for lv in c["levels"]] for c in scn["comparisons"]]
+        guards = [[c02.guard_values(lv, x[c["col"]], y[c["col"]]) for lv in c["levels"]] for c in scn["comparisons"]]
 
         def tfv(rr, col):
             t = tfs[col].get(rr[col]) if rr[col] is not None else None
